@@ -243,6 +243,28 @@ Proof.
   exact H.
 Qed.
 
+(* phi "matches the equation of state" at the reported P, T, x: there is a molar volume (witness V, found by an untrusted
+   Newton iteration next to the reported V) that satisfies the equation of state at the reported pressure to tolw, and the
+   reported phi is the Peng-Robinson value there.  (The engine's total pressure and mole numbers can be one iteration apart;
+   recomputing phi from the reported V/n directly would amplify that difference by |b_i/b - 1|.) *)
+Definition check_eos_tol (tolw : Q) (Rg T P V : Q) (m : list (list Q)) (cs : list gcomp) : bool :=
+  check_rel_within_Q prec80 [] (P_eos_expr Rg T V m cs) (cQ P) tolw.
+Theorem check_eos_tol_sound : forall tolw Rg T P V m cs, check_eos_tol tolw Rg T P V m cs = true ->
+  Rabs (P_eos_R Rg T V m cs - Q2R P) <= Q2R tolw * Rabs (Q2R P).
+Proof.
+  intros tolw Rg T P V m cs H. apply check_rel_within_Q_sound in H. rewrite P_eos_expr_ok in H.
+  unfold cQ in H. cbn [evalR] in H. exact H.
+Qed.
+Definition check_phi_at (tolw : Q) (Rg T P Vw : Q) (m : list (list Q)) (cs : list gcomp) (k : nat) (ck : gcomp) (phi : Q) : bool :=
+  check_eos_tol tolw Rg T P Vw m cs && check_phi Rg T P Vw m cs k ck phi.
+Theorem check_phi_at_sound : forall tolw Rg T P Vw m cs k ck phi, check_phi_at tolw Rg T P Vw m cs k ck phi = true ->
+  Rabs (P_eos_R Rg T Vw m cs - Q2R P) <= Q2R tolw * Rabs (Q2R P) /\
+  Rabs (exp (lnphi_R Rg T P Vw m cs k ck) - Q2R phi) <= / 1000000 * Rabs (Q2R phi).
+Proof.
+  intros tolw Rg T P Vw m cs k ck phi H. unfold check_phi_at in H. apply andb_prop in H. destruct H as [H1 H2].
+  split; [apply check_eos_tol_sound; exact H1 | apply check_phi_sound; exact H2].
+Qed.
+
 (* a reported phi that sits at a clamp value is legitimate when the unclamped value is beyond it *)
 Definition check_clamped_hi (Rg T P V : Q) (m : list (list Q)) (cs : list gcomp) (k : nat) (ck : gcomp) : bool :=
   check_le0_Q prec80 [] (Sub (Const (444 # 100)) (lnphi_expr Rg T P V m cs k ck)).
